@@ -110,4 +110,136 @@ theorem hom3 (x0 x1 y0 y1 z0 z1 : α) (hx : x0 ≠ x1) (hy : y0 ≠ y1) (hz : z0
   have := step2 (k / 16) (by omega) (k % 16) (by omega)
   rwa [Nat.div_add_mod] at this
 
+
+/-! ### the model's rows are these tensor rows -/
+
+theorem row1_dot (ax : Axis α) (i : Nat) (d c : Nat → α) (l : Nat) (hl : l < 4) :
+    dot (row1 ax i d l).1 c = sum4 (fun k => R (ax.xn i) (ax.xn (i + 1)) l k * c k) := by
+  interval_cases l <;> simp [row1, dot, dotFrom, sum4, R, comps] <;> ring
+
+/-- 1-D row index pair of 2-D row `l` (knot-major, kinds value, ∂x, ∂y, ∂xy) -/
+def rs2 (l : Nat) : Nat × Nat :=
+  (2 * (l / 4 / 2) + (if l % 4 = 1 ∨ l % 4 = 3 then 1 else 0), 2 * (l / 4 % 2) + (if l % 4 ≥ 2 then 1 else 0))
+
+theorem row2_dot (ax ay : Axis α) (cell : Nat × Nat) (D : Nat → Nat → α) (c : Nat → α) (l : Nat) (hl : l < 16) :
+    dot (row2 ax ay cell D l).1 c =
+      sum4 (fun a => sum4 (fun b => R (ax.xn cell.1) (ax.xn (cell.1 + 1)) (rs2 l).1 a *
+        R (ay.xn cell.2) (ay.xn (cell.2 + 1)) (rs2 l).2 b * c (4 * a + b))) := by
+  interval_cases l <;> simp [row2, dot, dotFrom, sum4, R, comps, rs2] <;> ring
+
+theorem dot_constraints3d (x y z : α) (xd yd zd : Bool) (c : Nat → α) :
+    dot (constraints3d x y z xd yd zd) c =
+      sum4 (fun a => sum4 (fun b => sum4 (fun k =>
+        comps x xd a * comps y yd b * comps z zd k * c (16 * a + 4 * b + k)))) := by
+  simp only [constraints3d, List.range_succ, List.range_zero, List.nil_append, List.flatMap_cons, List.flatMap_nil,
+    List.map_cons, List.map_nil, List.cons_append, List.append_nil, List.flatMap_append, List.map_append, dot, dotFrom,
+    sum4]
+  ring
+
+/-- 1-D row index triple of 3-D row `l` (kinds value, ∂x, ∂y, ∂z, ∂xy, ∂xz, ∂yz, ∂xyz) -/
+def rst3 (l : Nat) : Nat × Nat × Nat :=
+  let kind := l % 8
+  let knot := l / 8
+  (2 * (knot / 4) + (if kind = 1 ∨ kind = 4 ∨ kind = 5 ∨ kind = 7 then 1 else 0),
+   2 * (knot / 2 % 2) + (if kind = 2 ∨ kind = 4 ∨ kind = 6 ∨ kind = 7 then 1 else 0),
+   2 * (knot % 2) + (if kind = 3 ∨ kind = 5 ∨ kind = 6 ∨ kind = 7 then 1 else 0))
+
+theorem row3_dot (ax ay az : Axis α) (cell : Nat × Nat × Nat) (D : Nat → Nat → Nat → α) (c : Nat → α) (l : Nat)
+    (hl : l < 64) :
+    dot (row3 ax ay az cell D l).1 c =
+      sum4 (fun a => sum4 (fun b => sum4 (fun k =>
+        R (ax.xn cell.1) (ax.xn (cell.1 + 1)) (rst3 l).1 a *
+        R (ay.xn cell.2.1) (ay.xn (cell.2.1 + 1)) (rst3 l).2.1 b *
+        R (az.xn cell.2.2) (az.xn (cell.2.2 + 1)) (rst3 l).2.2 k * c (16 * a + 4 * b + k)))) := by
+  interval_cases l <;> simp [row3, dot_constraints3d, R, rst3]
+
+/-! ### solutions of the constraint systems; uniqueness -/
+
+/-- `c` satisfies every equation of the linear system `A c = b` (what a correct `solve` returns) -/
+def Solves (A : List (List α)) (b : List α) (c : Nat → α) : Prop :=
+  ∀ l, l < A.length → dot (A.getD l []) c = b.getD l 0
+
+def IsSol1 (ax : Axis α) (i : Nat) (d c : Nat → α) : Prop :=
+  ∀ l, l < 4 → dot (row1 ax i d l).1 c = (row1 ax i d l).2
+def IsSol2 (ax ay : Axis α) (cell : Nat × Nat) (D : Nat → Nat → α) (c : Nat → α) : Prop :=
+  ∀ l, l < 16 → dot (row2 ax ay cell D l).1 c = (row2 ax ay cell D l).2
+def IsSol3 (ax ay az : Axis α) (cell : Nat × Nat × Nat) (D : Nat → Nat → Nat → α) (c : Nat → α) : Prop :=
+  ∀ l, l < 64 → dot (row3 ax ay az cell D l).1 c = (row3 ax ay az cell D l).2
+
+theorem getD_range_map {β : Type} (f : Nat → β) (n l : Nat) (hl : l < n) (dflt : β) :
+    ((List.range n).map f).getD l dflt = f l := by
+  simp [List.getD, hl]
+
+theorem getD_range_map' {β γ : Type} (f : Nat → β) (g : β → γ) (n l : Nat) (hl : l < n) (dflt : γ) :
+    (Option.map (g ∘ f) (List.range n)[l]?).getD dflt = g (f l) := by
+  simp [hl]
+
+theorem solves_system1 (ax : Axis α) (i : Nat) (d c : Nat → α) :
+    Solves (system1 ax i d).1 (system1 ax i d).2 c ↔ IsSol1 ax i d c := by
+  unfold Solves IsSol1 system1
+  simp only [List.map_map, List.length_map, List.length_range]
+  constructor <;> intro h l hl <;> have := h l hl <;>
+    simpa [getD_range_map' _ _ 4 l hl] using this
+
+theorem solves_system2 (ax ay : Axis α) (cell : Nat × Nat) (D : Nat → Nat → α) (c : Nat → α) :
+    Solves (system2 ax ay cell D).1 (system2 ax ay cell D).2 c ↔ IsSol2 ax ay cell D c := by
+  unfold Solves IsSol2 system2
+  simp only [List.map_map, List.length_map, List.length_range]
+  constructor <;> intro h l hl <;> have := h l hl <;>
+    simpa [getD_range_map' _ _ 16 l hl] using this
+
+theorem solves_system3 (ax ay az : Axis α) (cell : Nat × Nat × Nat) (D : Nat → Nat → Nat → α) (c : Nat → α) :
+    Solves (system3 ax ay az cell D).1 (system3 ax ay az cell D).2 c ↔ IsSol3 ax ay az cell D c := by
+  unfold Solves IsSol3 system3
+  simp only [List.map_map, List.length_map, List.length_range]
+  constructor <;> intro h l hl <;> have := h l hl <;>
+    simpa [getD_range_map' _ _ 64 l hl] using this
+
+theorem unique1 (ax : Axis α) (i : Nat) (d c c' : Nat → α) (hne : ax.xn i ≠ ax.xn (i + 1))
+    (h : IsSol1 ax i d c) (h' : IsSol1 ax i d c') : ∀ k, k < 4 → c k = c' k := by
+  have key := hom1 (ax.xn i) (ax.xn (i + 1)) hne (fun n => 1 * c n + (-1) * c' n) (by
+    intro r hr
+    rw [← row1_dot ax i d _ r hr, dot_lin, h r hr, h' r hr]; ring)
+  intro k hk
+  have := key k hk
+  linear_combination this
+
+theorem unique2 (ax ay : Axis α) (cell : Nat × Nat) (D : Nat → Nat → α) (c c' : Nat → α)
+    (hx : ax.xn cell.1 ≠ ax.xn (cell.1 + 1)) (hy : ay.xn cell.2 ≠ ay.xn (cell.2 + 1))
+    (h : IsSol2 ax ay cell D c) (h' : IsSol2 ax ay cell D c') : ∀ k, k < 16 → c k = c' k := by
+  have key := hom2 _ _ _ _ hx hy (fun n => 1 * c n + (-1) * c' n) (by
+    intro r s hr hs
+    have hl : 4 * (2 * (r / 2) + s / 2) + (r % 2 + 2 * (s % 2)) < 16 := by omega
+    have e := row2_dot ax ay cell D (fun n => 1 * c n + (-1) * c' n) _ hl
+    have hrs : rs2 (4 * (2 * (r / 2) + s / 2) + (r % 2 + 2 * (s % 2))) = (r, s) := by
+      interval_cases r <;> interval_cases s <;> rfl
+    rw [hrs] at e
+    rw [← e, dot_lin, h _ hl, h' _ hl]; ring)
+  intro k hk
+  have := key k hk
+  linear_combination this
+
+/-- the row of the 64-row system that carries the 1-D rows `(r, s, t)` -/
+def l3 (r s t : Nat) : Nat :=
+  8 * (4 * (r / 2) + 2 * (s / 2) + t / 2) +
+    (if r % 2 = 0 then (if s % 2 = 0 then (if t % 2 = 0 then 0 else 3) else (if t % 2 = 0 then 2 else 6))
+     else (if s % 2 = 0 then (if t % 2 = 0 then 1 else 5) else (if t % 2 = 0 then 4 else 7)))
+
+theorem unique3 (ax ay az : Axis α) (cell : Nat × Nat × Nat) (D : Nat → Nat → Nat → α) (c c' : Nat → α)
+    (hx : ax.xn cell.1 ≠ ax.xn (cell.1 + 1)) (hy : ay.xn cell.2.1 ≠ ay.xn (cell.2.1 + 1))
+    (hz : az.xn cell.2.2 ≠ az.xn (cell.2.2 + 1))
+    (h : IsSol3 ax ay az cell D c) (h' : IsSol3 ax ay az cell D c') : ∀ k, k < 64 → c k = c' k := by
+  have key := hom3 _ _ _ _ _ _ hx hy hz (fun n => 1 * c n + (-1) * c' n) (by
+    intro r s t hr hs ht
+    have hl : l3 r s t < 64 := by
+      interval_cases r <;> interval_cases s <;> interval_cases t <;> decide
+    have e := row3_dot ax ay az cell D (fun n => 1 * c n + (-1) * c' n) _ hl
+    have hrs : rst3 (l3 r s t) = (r, s, t) := by
+      interval_cases r <;> interval_cases s <;> interval_cases t <;> rfl
+    rw [hrs] at e
+    rw [← e, dot_lin, h _ hl, h' _ hl]; ring)
+  intro k hk
+  have := key k hk
+  linear_combination this
+
 end Cherab.Caching
